@@ -159,8 +159,8 @@ func overlayFor(w *Witness, repo string) (map[string][]byte, bool, error) {
 }
 
 type mutantResult struct {
-	Applied bool  `json:"applied"`
-	Failing []*Ob `json:"failing"`
+	Applied bool   `json:"applied"`
+	Failing []*Ob  `json:"failing"`
 	Err     string `json:"err,omitempty"`
 }
 
